@@ -29,6 +29,20 @@ Theorem C02_quiescent_complete : forall tr s, run init tr = Some s -> quiescent 
 Proof. exact quiescent_complete. Qed.
 Print Assumptions C02_quiescent_complete.
 
+(* "with its id" does not rest on the ids being distinct: the packet manager orders by arrival, not by the id the peer chose.
+   For ANY assignment of ids to requests - a peer may reuse an id while an earlier request carrying it is still in flight - the
+   ids on the wire are the ids of requests 1..k in arrival order, and all of them once nothing is in flight. Tied by the
+   programs of c02 and pmt whose ids are drawn from {7, 8, 9}. *)
+Theorem C02_ids_in_arrival_order_any_assignment : forall (A : Type) (rid : nat -> A) tr s, run init tr = Some s ->
+  map rid (emitted s) = map rid (seq 1 (length (emitted s))).
+Proof. exact emitted_ids_any_assignment. Qed.
+Print Assumptions C02_ids_in_arrival_order_any_assignment.
+
+Theorem C02_all_ids_once_quiescent_any_assignment : forall (A : Type) (rid : nat -> A) tr s,
+  run init tr = Some s -> quiescent s = true -> map rid (emitted s) = map rid (seq 1 (arrived s)).
+Proof. exact quiescent_ids_any_assignment. Qed.
+Print Assumptions C02_all_ids_once_quiescent_any_assignment.
+
 (* no wedge: a reachable state with work left can always take a step of the server's own goroutines (also across the
    CLOSE barrier) ... *)
 Theorem C02_progress : forall tr s, run init tr = Some s -> quiescent s = false ->
